@@ -303,6 +303,47 @@ theorem connect_failure_is_transport_error (t : Transport) (L : Nat) (c : PyExn)
 /-- A successful connection attempt yields the connected transport the reading theorems start from. -/
 theorem connect_success (t : Transport) (L : Nat) : t.connect L none = (none, connected L) := rfl
 
+/-- A call made on a transport that has no connection: `read`, `write` (whatever the stream would do), `disconnect`
+(whatever closing would do), or a `connect` whose attempt fails with some exception. -/
+inductive PreCall where
+  | read
+  | write (l : Str) (f : WriteFault)
+  | disconnect (f : CloseFault)
+  | connectFails (L : Nat) (c : PyExn)
+
+/-- The transport after such a call. -/
+def PreCall.after (decodeUtf8 : Bytes → Option Str) (t : Transport) : PreCall → Transport
+  | .read => (Transport.read decodeUtf8 t).2
+  | .write l f => (t.write l f).2
+  | .disconnect f => (t.disconnect f).2
+  | .connectFails L c => (t.connect L (some c)).2
+
+/-- **C17, every state without a connection.** Starting from a transport that is not connected (a new one in
+particular), after ANY sequence of reads, writes, disconnects and failed connection attempts, in any order, the
+transport is what it was; there `read` and `write` raise `TransportError`, `disconnect` returns normally whatever
+closing would do, and a further attempt that fails with an `OSError` raises `TransportError`. -/
+theorem no_connection_is_stable (decodeUtf8 : Bytes → Option Str) (t : Transport) (h : t.conn = none)
+    (calls : List PreCall) :
+    calls.foldl (PreCall.after decodeUtf8) t = t ∧
+    Transport.read decodeUtf8 (calls.foldl (PreCall.after decodeUtf8) t) = (.err (.lib .transportError), t) ∧
+    (∀ l f, (calls.foldl (PreCall.after decodeUtf8) t).write l f = (some (.lib .transportError), t)) ∧
+    (∀ f, (calls.foldl (PreCall.after decodeUtf8) t).disconnect f = (none, t)) ∧
+    (∀ L c, IsOSError c →
+      (calls.foldl (PreCall.after decodeUtf8) t).connect L (some c) = (some (.lib .transportError), t)) := by
+  have hfix : calls.foldl (PreCall.after decodeUtf8) t = t := by
+    induction calls with
+    | nil => rfl
+    | cons c cs ih =>
+      have hc : PreCall.after decodeUtf8 t c = t := by
+        cases c <;> simp [PreCall.after, Transport.read, Transport.write, Transport.disconnect, Transport.connect, h]
+      simpa [List.foldl, hc] using ih
+  rw [hfix]
+  refine ⟨rfl, ?_, ?_, ?_, ?_⟩
+  · simp [Transport.read, h]
+  · intro l f; simp [Transport.write, h]
+  · intro f; simp [Transport.disconnect, h]
+  · intro L c hc; exact connect_failure_is_transport_error t L c hc
+
 /-- `disconnect` absorbs OS-level errors, from `close()` as well as from `wait_closed()`, connected
 or not. -/
 theorem disconnect_absorbs_oserror (t : Transport) (f : CloseFault) (hf : ∀ c, f.exn? = some c → IsOSError c) :
